@@ -28,7 +28,7 @@ fn main() {
         let name = it.next().unwrap_or("").to_string();
         let bytes = hexd(it.next().unwrap_or(""));
         let r = std::panic::catch_unwind(|| table!(name.as_str(), &bytes,
-            s_lines_first, s_lines_second, s_splitn_nth2, s_split_count, s_split_last, s_collect_shape, s_collect_match, s_slice_pat, s_slice_pat_end, s_chars_pos, s_chars_count, s_chars_all_digit,
+            s_lines_first, s_lines_second, s_splitn_nth2, s_split_count, s_split_last, s_collect_shape, s_collect_match, s_slice_pat, s_slice_pat_end, s_split_str_nth, s_split_str_count, s_chars_pos, s_chars_count, s_chars_all_digit,
             s_chars_any_upper, s_chars_next, s_bytes_all_digit, s_bytes_pos, s_split_once, s_rsplit_once, s_split_once_str, s_strip_suffix, s_strip_prefix_char, s_trim_end_crlf,
             s_trim_start_sp, s_trim_end_sp, s_trim_start_zero_str, s_trim_end_set, s_trim_start_set, s_find_set, s_eq_ic, s_is_ascii, s_parse_u8, s_parse_u32, s_parse_u16_kind, s_radix, s_fromstr, s_starts_digit, s_ends_with_char, s_contains_char,
             s_contains_str, s_rfind, s_find_str, s_split_at, s_get ;
